@@ -79,6 +79,7 @@ class Repo:
     def lookup(self, key):
         """key = 'xyzpy/gen/cropping.py:Sower.__call__' -> (Module, FunctionDef) or (Module, None)."""
         rel, q = key.split(":")
+        q = q.split("@")[0]        # 'func@variant': a second contract (e.g. a special case) on the same function
         m = self.module(rel)
         return m, m.get(q)
 
